@@ -145,11 +145,11 @@ Proof. intros [] []. split; [eapply cle_trans|eapply ole_trans|eapply sle_trans]
 (* ================================================================ gate-out invariants *)
 (* a subscribe-all bookkeeping entry exists only for services whose owner (if it is connected)
    negotiated at least 1.18 *)
-Definition J (st : state) : Prop :=
+Definition J0 (st : state) : Prop :=
   forall k sv o cs, svcs st !! k = Some sv -> s_all sv <> ∅ -> objs st !! k.1 = Some o ->
     conns st !! o_owner o = Some cs -> 18 <= cs_ver cs.
 
-Lemma J_shr a b : J a -> shr a b -> J b.
+Lemma J0_shr a b : J0 a -> shr a b -> J0 b.
 Proof.
   intros HJ [Hc Ho Hs] k sv o cs Hk Hne Hob Hcn.
   destruct (Hs _ _ Hk) as (sv0 & Hk0 & Hne0). destruct (Hc _ _ Hcn) as (cs0 & Hc0 & E).
@@ -158,12 +158,28 @@ Qed.
 
 (* queued "tell the owner nobody subscribes to all events any more" items only name owners of
    version >= 1.18 *)
-Definition W (m : M) : Prop :=
+Definition W0 (m : M) : Prop :=
   forall c sc cs, (c, sc) ∈ w_unsub_all (mw m) -> conns (ms m) !! c = Some cs -> 18 <= cs_ver cs.
+
+(* The pass below is made once for two readings, selected by [strict]:
+   strict = true : J0/W0 are carried and every output must respect its destination's version;
+   strict = false: nothing is carried, and the one message kind whose justification needs the
+                   ownership invariants (UnsubscribeAllEvents None, sent to a service's owner
+                   when its last all-events subscriber disconnects) is exempted. *)
+Section pass.
+Context (strict : bool).
+
+Definition J (st : state) : Prop := strict = true -> J0 st.
+Definition W (m : M) : Prop := strict = true -> W0 m.
+
+Lemma J_shr a b : J a -> shr a b -> J b.
+Proof. intros HJ S Hs. eapply J0_shr; [apply HJ, Hs|exact S]. Qed.
 
 (* an output is acceptable w.r.t. the connection table [s0] *)
 Definition okout (s0 : gmap conn cstate) (o : out) : Prop :=
-  exists cs, s0 !! o.1.1 = Some cs /\ (msg_min_version o.1.2 = 14 \/ msg_min_version o.1.2 <= cs_ver cs).
+  exists cs, s0 !! o.1.1 = Some cs /\
+    (msg_min_version o.1.2 = 14 \/ msg_min_version o.1.2 <= cs_ver cs \/
+     (strict = false /\ exists sc, o.1.2 = UnsubscribeAllEvents None sc)).
 
 Lemma okout_cle a b o : cle a b -> okout b o -> okout a o.
 Proof. intros H (cs & Hc & Hv). destruct (H _ _ Hc) as (cs0 & Hc0 & E). exists cs0. split; [assumption|]. rewrite <- E. exact Hv. Qed.
@@ -194,7 +210,7 @@ Proof.
   intros Ec Eo Es Ew Em. split.
   - split; rewrite ?Ec, ?Eo, ?Es; [apply cle_refl|apply ole_refl|apply sle_refl].
   - intros _ HW. split.
-    + intros c sc cs. rewrite Ew, Ec. apply HW.
+    + intros Hs c sc cs. rewrite Ew, Ec. apply HW, Hs.
     + exists []. rewrite app_nil_r. auto.
 Qed.
 
@@ -203,7 +219,7 @@ Lemma R_shr m m' :
   shr (ms m) (ms m') -> w_unsub_all (mw m') = w_unsub_all (mw m) -> mo m' = mo m -> R m m'.
 Proof.
   intros S Ew Em. split; [exact S|]. intros _ HW. split.
-  - intros c sc cs Hin Hc. rewrite Ew in Hin. destruct (shr_c _ _ S _ _ Hc) as (cs0 & Hc0 & E).
+  - intros Hs c sc cs Hin Hc. rewrite Ew in Hin. destruct (shr_c _ _ S _ _ Hc) as (cs0 & Hc0 & E).
     rewrite E. eapply HW; eauto.
   - exists []. rewrite app_nil_r. auto.
 Qed.
@@ -234,7 +250,7 @@ Proof.
   destruct (cs_alive cs); [|apply R_refl]. cbn.
   split; [apply shr_refl|]. intros _ HW. split; [exact HW|].
   exists [(c, x, from)]. split; [reflexivity|]. constructor; [|constructor].
-  exists cs. cbn. split; [exact E|]. apply Hv. reflexivity.
+  exists cs. cbn. split; [exact E|]. destruct (Hv cs eq_refl) as [H|H]; auto.
 Qed.
 
 Lemma push_remove_R m c sd : R m (push_remove m c sd).
@@ -322,7 +338,7 @@ Proof.
     - split.
       + subst m1 m0. destruct (sd && cs_alive cs); cbn; (split; [apply cle_delete|apply ole_refl|apply sle_refl]).
       + intros _ HW. split.
-        * intros c' sc cs' Hin Hc. apply (HW c' sc cs').
+        * intros Hst c' sc cs' Hin Hc. apply (HW Hst c' sc cs').
           -- subst m1 m0. destruct (sd && cs_alive cs); exact Hin.
           -- subst m1 m0. destruct (sd && cs_alive cs); cbn in Hc; apply lookup_delete_Some in Hc as [_ Hc]; exact Hc.
         * subst m1 m0. destruct (sd && cs_alive cs); cbn.
@@ -358,7 +374,7 @@ Proof.
     split.
     - destruct (bool_decide _); cbn; (split; [apply cle_refl|apply ole_refl|exact Hsle]).
     - intros HJ HW. split.
-      + intros c' sc cs' Hin' Hc'.
+      + intros Hst c' sc cs' Hin' Hc'. specialize (HJ Hst). specialize (HW Hst).
         assert (Hc'' : conns (ms ma) !! c' = Some cs') by (destruct (bool_decide _); exact Hc').
         destruct (bool_decide (s_all s ∖ {[c]} = ∅)); cbn in Hin'; [|eapply HW; eassumption].
         apply elem_of_cons in Hin' as [Heq|Hin']; [|eapply HW; eassumption].
@@ -419,16 +435,18 @@ Proof.
   2:{ intros H. apply (inj Some) in H. subst x. cbv zeta. set (m1 := m <| mw; w_unsub_all := r |>).
       assert (H1 : R m m1).
       { split; [apply shr_refl|]. intros _ HW. split.
-        - intros c' sc cs Hin Hc. apply (HW c' sc cs); [|exact Hc]. rewrite E3. apply elem_of_cons. right. exact Hin.
+        - intros Hst c' sc cs Hin Hc. apply (HW Hst c' sc cs); [|exact Hc]. rewrite E3. apply elem_of_cons. right. exact Hin.
         - exists []. rewrite app_nil_r. auto. }
       destruct (has m1 c); [|exact H1].
       (* the send is justified by W of the ORIGINAL m, not of m1: prove the composite directly *)
       unfold send_or_remove, send. destruct (conns (ms m1) !! c) as [cs|] eqn:Ec; [|exact I].
       assert (Hsend : R m (m1 <| mo := mo m1 ++ [(c, UnsubscribeAllEvents None s, None)] |>)).
       { split; [apply shr_refl|]. intros _ HW. split.
-        - intros c' sc cs' Hin Hc. apply (HW c' sc cs'); [|exact Hc]. rewrite E3. apply elem_of_cons. right. exact Hin.
+        - intros Hst c' sc cs' Hin Hc. apply (HW Hst c' sc cs'); [|exact Hc]. rewrite E3. apply elem_of_cons. right. exact Hin.
         - exists [(c, UnsubscribeAllEvents None s, None)]. split; [reflexivity|]. constructor; [|constructor].
-          exists cs. split; [exact Ec|]. right. cbn. apply (HW c s cs); [|exact Ec]. rewrite E3. apply elem_of_cons. left. reflexivity. }
+          exists cs. split; [exact Ec|]. right. cbn. destruct strict eqn:Hst.
+          + left. apply (HW Hst c s cs); [|exact Ec]. rewrite E3. apply elem_of_cons. left. reflexivity.
+          + right. split; [reflexivity|]. exists s. reflexivity. }
       destruct (cs_alive cs); cbn; [exact Hsend|].
       eapply R_trans; [exact H1|apply push_remove_R]. }
   destruct (w_svc_destroyed (mw m)) as [|[c s] r] eqn:E4.
@@ -463,6 +481,8 @@ Proof.
     apply settle_one_R in E. destruct x as [m'|m'|]; cbn in E; try exact I; (eapply oRR_step; [exact E|apply IH]).
 Qed.
 
+End pass.
+
 (* ================================================================ gate-in *)
 Definition m_of (s : state) : M := {| ms := s; mw := work0; mo := [] |}.
 
@@ -476,3 +496,48 @@ Proof.
     match goal with |- (if ?a <? ?b then _ else _) = _ => destruct (N.ltb_spec a b) as [|Hge]; [reflexivity|] end;
     exfalso; match type of Hge with ?k <= _ => let k' := eval vm_compute in k in change k with k' in Hge end; lia.
 Qed.
+
+Lemma fuel_for_pos s : exists f, fuel_for s = S f.
+Proof. unfold fuel_for. eexists. cbn [Nat.add]. reflexivity. Qed.
+
+(* a queued removal of [c] at the head of the work list removes [c] for good *)
+Lemma settle_removes fuel m c sd r m' :
+  w_remove_conns (mw m) = (c, sd) :: r ->
+  (settle (S fuel) m = Done m' \/ settle (S fuel) m = Fail m') -> conns (ms m') !! c = None.
+Proof.
+  intros Hw Hs. cbn [settle] in Hs. unfold settle_one in Hs. rewrite Hw in Hs.
+  pose proof (shutdown_conn_R false (m <| mw; w_remove_conns := r |>) c sd) as H.
+  destruct (shutdown_conn _ c sd) as [m1|m1|]; cbn in H.
+  - destruct H as [_ Ha]. pose proof (settle_R false fuel m1) as H2.
+    destruct Hs as [Hs|Hs]; rewrite Hs in H2; cbn in H2; eapply R_absent; eassumption.
+  - destruct H as [_ Ha]. pose proof (settle_R false fuel m1) as H2.
+    destruct Hs as [Hs|Hs]; rewrite Hs in H2; cbn in H2; eapply R_absent; eassumption.
+  - destruct Hs; discriminate.
+Qed.
+
+Theorem gate_in s c cs x v fresh b s' o :
+  conns s !! c = Some cs -> min_version_of x = Some v -> cs_ver cs < v ->
+  step s (Message c x) fresh b = Done (s', o) -> conns s' !! c = None.
+Proof.
+  intros Hc Hx Hv Hstep. unfold step in Hstep.
+  change {| ms := s; mw := work0; mo := [] |} with (m_of s) in Hstep.
+  rewrite (handle_gated_fail s c cs x v fresh b Hc Hx Hv) in Hstep.
+  destruct (fuel_for_pos (ms (push_remove (m_of s) c false))) as [f Ef]. rewrite Ef in Hstep.
+  destruct (settle (S f) (push_remove (m_of s) c false)) as [m'|m'|] eqn:Es; try discriminate;
+    injection Hstep as <- <-; eapply (settle_removes f _ c false []); eauto; reflexivity.
+Qed.
+
+(* the messages the statement names, one by one *)
+Example gated_kinds :
+  (forall a b c d e, min_version_of (CallFunction2 a b c d e) = Some 19) /\
+  (forall a, min_version_of (AbortFunctionCall a) = Some 16) /\
+  min_version_of RegisterIntrospection = Some 17 /\
+  (forall a, min_version_of (QueryIntrospection a) = Some 17) /\
+  (forall a, min_version_of (QueryIntrospectionReply a) = Some 17) /\
+  (forall a b c d, min_version_of (CreateService2 a b c d) = Some 17) /\
+  (forall a b, min_version_of (QueryServiceInfo a b) = Some 17) /\
+  (forall a b, min_version_of (SubscribeService a b) = Some 18) /\
+  (forall a, min_version_of (UnsubscribeService a) = Some 18) /\
+  (forall a b, min_version_of (SubscribeAllEvents a b) = Some 18) /\
+  (forall a b, min_version_of (UnsubscribeAllEvents a b) = Some 18).
+Proof. repeat split. Qed.
